@@ -5,14 +5,14 @@
 (* relational clause SurgeryClauses, for small meshes (<= 6 cells) x every     *)
 (* cell subset x tag subsets, and for compositions of two operations.          *)
 (*                                                                             *)
-(* WithDup = FALSE : MC_C18.cfg      - must hold                               *)
-(* WithDup = TRUE  : MC_C18_dup.cfg  - additionally remove_duplicate_nodes as  *)
-(*                   transcribed from today's code (tag arrays kept although   *)
-(*                   the vertices are renumbered): violated - finding #15,     *)
-(*                   reported through the known-finding matching               *)
+(* DupModel = "current" : MC_C18.cfg     - remove_duplicate_nodes as repaired   *)
+(*                        by commit 0832543 (boundaries renumbered): must hold *)
+(* DupModel = "old"     : MC_C18_dup.cfg - the earlier version (tag arrays     *)
+(*                        kept verbatim) as a regression model: TLC must keep  *)
+(*                        refuting it (harness: old_dup_removal_refuted_by_tlc)*)
 EXTENDS Surgery
 
-CONSTANT WithDup
+CONSTANT DupModel
 Tier == IF "TIER" \in DOMAIN IOEnv THEN IOEnv.TIER ELSE "quick"
 
 Twice(p) == [v \in DOMAIN p |-> [i \in DOMAIN p[v] |-> 2 * p[v][i]]]
@@ -124,11 +124,10 @@ DoUnused ==
       c2 == ConnOfMesh(r)
   IN Apply("remove_unused_nodes", r, c2, Event("remove_unused_nodes", <<ProjAM(m1, c1)>>, <<ProjAM(r, c2)>>, NoPar))
 DoDup ==
-  /\ WithDup
-  /\ LET r  == RemoveDuplicateNodesImpl(tm)
-         c2 == ConnOfMesh(r)
-     IN Apply("remove_duplicate_nodes", r, c2,
-              Event("remove_duplicate_nodes", <<ProjAM(tm, c)>>, <<ProjAM(r, c2)>>, NoPar))
+  LET rr == IF DupModel = "current" THEN RemoveDuplicateNodesImpl(tm, c, ConnOfMesh)
+            ELSE LET o == RemoveDuplicateNodesImplOld(tm) IN [tm |-> o, c |-> ConnOfMesh(o)]
+  IN Apply("remove_duplicate_nodes", rr.tm, rr.c,
+           Event("remove_duplicate_nodes", <<ProjAM(tm, c)>>, <<ProjAM(rr.tm, rr.c)>>, NoPar))
 DoTri ==
   /\ tm.kind = "quad"
   /\ \E style \in {"", "x"} :
